@@ -490,35 +490,201 @@ theorem modularity_und_sign_sta_label_invariant (canon : (Fin n → ℝ) → Fin
     (hcanon : ∀ c x y, canon c x = canon c y ↔ c x = c y)
     (W : Fin n → Fin n → ℝ) (ci Kn0 Kn1 : Fin n → ℝ) (g : ℝ → ℝ) (hg : Function.Injective g) :
     modularity_und_sign_sta_ret1 canon W (fun i => g (ci i)) Kn0 Kn1 = modularity_und_sign_sta_ret1 canon W ci Kn0 Kn1 := by
-  simp only [modularity_und_sign_sta_ret1, add_left_inj, hcanon, hg.eq_iff, zero_mul]
+  simp only [modularity_und_sign_sta_ret1, add_left_inj, hcanon, hg.eq_iff]
 
 --@ C14 : modularity_und_sign
 theorem modularity_und_sign_smp_label_invariant (canon : (Fin n → ℝ) → Fin n → ℝ)
     (hcanon : ∀ c x y, canon c x = canon c y ↔ c x = c y)
     (W : Fin n → Fin n → ℝ) (ci Kn0 Kn1 : Fin n → ℝ) (g : ℝ → ℝ) (hg : Function.Injective g) :
     modularity_und_sign_smp_ret1 canon W (fun i => g (ci i)) Kn0 Kn1 = modularity_und_sign_smp_ret1 canon W ci Kn0 Kn1 := by
-  simp only [modularity_und_sign_smp_ret1, add_left_inj, hcanon, hg.eq_iff, zero_mul]
+  simp only [modularity_und_sign_smp_ret1, add_left_inj, hcanon, hg.eq_iff]
 
 --@ C14 : modularity_und_sign
 theorem modularity_und_sign_gja_label_invariant (canon : (Fin n → ℝ) → Fin n → ℝ)
     (hcanon : ∀ c x y, canon c x = canon c y ↔ c x = c y)
     (W : Fin n → Fin n → ℝ) (ci Kn0 Kn1 : Fin n → ℝ) (g : ℝ → ℝ) (hg : Function.Injective g) :
     modularity_und_sign_gja_ret1 canon W (fun i => g (ci i)) Kn0 Kn1 = modularity_und_sign_gja_ret1 canon W ci Kn0 Kn1 := by
-  simp only [modularity_und_sign_gja_ret1, add_left_inj, hcanon, hg.eq_iff, zero_mul]
+  simp only [modularity_und_sign_gja_ret1, add_left_inj, hcanon, hg.eq_iff]
 
 --@ C14 : modularity_und_sign
 theorem modularity_und_sign_pos_label_invariant (canon : (Fin n → ℝ) → Fin n → ℝ)
     (hcanon : ∀ c x y, canon c x = canon c y ↔ c x = c y)
     (W : Fin n → Fin n → ℝ) (ci Kn0 Kn1 : Fin n → ℝ) (g : ℝ → ℝ) (hg : Function.Injective g) :
     modularity_und_sign_pos_ret1 canon W (fun i => g (ci i)) Kn0 Kn1 = modularity_und_sign_pos_ret1 canon W ci Kn0 Kn1 := by
-  simp only [modularity_und_sign_pos_ret1, add_left_inj, hcanon, hg.eq_iff, zero_mul]
+  simp only [modularity_und_sign_pos_ret1, add_left_inj, hcanon, hg.eq_iff]
 
 --@ C14 : modularity_und_sign
 theorem modularity_und_sign_neg_label_invariant (canon : (Fin n → ℝ) → Fin n → ℝ)
     (hcanon : ∀ c x y, canon c x = canon c y ↔ c x = c y)
     (W : Fin n → Fin n → ℝ) (ci Kn0 Kn1 : Fin n → ℝ) (g : ℝ → ℝ) (hg : Function.Injective g) :
     modularity_und_sign_neg_ret1 canon W (fun i => g (ci i)) Kn0 Kn1 = modularity_und_sign_neg_ret1 canon W ci Kn0 Kn1 := by
-  simp only [modularity_und_sign_neg_ret1, add_left_inj, hcanon, hg.eq_iff, zero_mul]
+  simp only [modularity_und_sign_neg_ret1, add_left_inj, hcanon, hg.eq_iff]
 
 end C14
+end Extracted
+
+set_option linter.unusedSimpArgs false
+
+/-! ## C02 — modularity_und / _dir / _und_sign called with a partition return that partition's modularity (its DEFINITION) -/
+namespace Extracted
+open BigOperators Finset
+
+section C02
+variable {n : ℕ}
+
+/-- total weight m = Σ_i Σ_j a_ij, out-strength, in-strength -/
+noncomputable def mtot (A : Fin n → Fin n → ℝ) : ℝ := ∑ i, ∑ j, A i j
+noncomputable def kout (A : Fin n → Fin n → ℝ) (i : Fin n) : ℝ := ∑ j, A i j
+noncomputable def kin (A : Fin n → Fin n → ℝ) (j : Fin n) : ℝ := ∑ i, A i j
+
+/-- DEFINITION of (directed) modularity of the partition given by the labels `ci` (Leicht & Newman 2008, resolution γ) -/
+noncomputable def Qdef (A : Fin n → Fin n → ℝ) (γ : ℝ) (ci : Fin n → ℝ) : ℝ :=
+  (1 / mtot A) * ∑ i, ∑ j, if ci i = ci j then (A i j - γ * kout A i * kin A j / mtot A) else 0
+
+lemma mtot_comm (A : Fin n → Fin n → ℝ) : (∑ j, ∑ i, A i j) = mtot A := Finset.sum_comm
+
+/-- co-membership mask written as the code writes it (label difference is zero), times a value -/
+lemma mask_sub (p q x : ℝ) : (if q - p = 0 then (1:ℝ) else 0) * x = if p = q then x else 0 := by
+  by_cases h : p = q
+  · subst h; simp
+  · have : ¬ (q - p = 0) := fun e => h (sub_eq_zero.mp e).symm
+    simp [h, this]
+lemma mask_eq_l (p q x : ℝ) : (if q = p then (1:ℝ) else 0) * x = if p = q then x else 0 := by
+  by_cases h : p = q
+  · subst h; simp
+  · have : ¬ (q = p) := fun e => h e.symm
+    simp [h, this]
+lemma mask_eq_r (p q x : ℝ) : x * (if q = p then (1:ℝ) else 0) = if p = q then x else 0 := by
+  rw [mul_comm, mask_eq_l]
+
+/-- Σ_ij δ_ij (b_ij + b_ji) / (2M) = (1/M) Σ_ij δ_ij b_ij for a symmetric mask δ (no hypothesis on M) -/
+lemma fold_transpose (δ b : Fin n → Fin n → ℝ) (hδ : ∀ i j, δ i j = δ j i) (M : ℝ) :
+    ∑ i, ∑ j, (δ i j * (b i j + b j i)) / (2 * M) = (1 / M) * ∑ i, ∑ j, δ i j * b i j := by
+  have h1 : ∑ i, ∑ j, δ i j * b j i = ∑ i, ∑ j, δ i j * b i j := by
+    rw [Finset.sum_comm]
+    refine Finset.sum_congr rfl (fun i _ => Finset.sum_congr rfl (fun j _ => ?_))
+    rw [hδ j i]
+  simp only [← Finset.sum_div, mul_add, Finset.sum_add_distrib, h1]
+  rw [← two_mul, mul_div_mul_left _ _ (two_ne_zero), one_div, inv_mul_eq_div]
+
+/-- co-membership mask and the modularity kernel b_ij = a_ij − γ kout_i kin_j / m -/
+noncomputable def comask (ci : Fin n → ℝ) (i j : Fin n) : ℝ := if ci i = ci j then 1 else 0
+noncomputable def bker (A : Fin n → Fin n → ℝ) (γ : ℝ) (i j : Fin n) : ℝ := A i j - γ * kout A i * kin A j / mtot A
+
+lemma comask_symm (ci : Fin n → ℝ) (i j : Fin n) : comask ci i j = comask ci j i := by
+  unfold comask; by_cases h : ci i = ci j
+  · rw [if_pos h, if_pos h.symm]
+  · rw [if_neg h, if_neg (fun e => h e.symm)]
+
+lemma Qdef_eq (A : Fin n → Fin n → ℝ) (γ : ℝ) (ci : Fin n → ℝ) :
+    Qdef A γ ci = (1 / mtot A) * ∑ i, ∑ j, comask ci i j * bker A γ i j := by
+  simp only [Qdef, comask, bker, ite_mul, one_mul, zero_mul]
+
+/-- closes a per-cell goal `code mask · value = comask · value'` by cases on co-membership -/
+macro "mask_cases " ci:term:max i:term:max j:term:max : tactic => `(tactic| (
+  by_cases h : $ci $i = $ci $j
+  · have h' : $ci $j = $ci $i := h.symm
+    have h'' : $ci $j - $ci $i = 0 := sub_eq_zero.mpr h'
+    simp only [if_pos h, if_pos h', if_pos h'']
+    first | rfl | ring1
+  · have h' : ¬ ($ci $j = $ci $i) := fun e => h e.symm
+    have h'' : ¬ ($ci $j - $ci $i = 0) := fun e => h' (sub_eq_zero.mp e)
+    simp only [if_neg h, if_neg h', if_neg h'']
+    first | rfl | ring1))
+
+--@ C02 : modularity_dir
+theorem modularity_dir_given_partition_is_Q (A : Fin n → Fin n → ℝ) (γ : ℝ) (ci : Fin n → ℝ) :
+    modularity_dir_ret1 A γ ci = Qdef A γ ci := by
+  rw [Qdef_eq, ← fold_transpose (comask ci) (bker A γ) (comask_symm ci) (mtot A)]
+  simp only [modularity_dir_ret1, mtot_comm A]
+  refine Finset.sum_congr rfl (fun i _ => Finset.sum_congr rfl (fun j _ => ?_))
+  simp only [comask, bker, kout, kin]
+  mask_cases ci i j
+
+--@ C02 : modularity_und
+theorem modularity_und_given_partition_is_Q (A : Fin n → Fin n → ℝ) (hs : ∀ i j, A i j = A j i) (γ : ℝ) (ci : Fin n → ℝ) :
+    modularity_und_ret1 A γ ci = Qdef A γ ci := by
+  have hk : ∀ i, (∑ k, A k i) = ∑ k, A i k := fun i => Finset.sum_congr rfl (fun k _ => hs k i)
+  rw [Qdef_eq, one_div, inv_mul_eq_div, Finset.sum_div]
+  simp only [modularity_und_ret1, mtot_comm A, Finset.sum_div]
+  refine Finset.sum_congr rfl (fun i _ => Finset.sum_congr rfl (fun j _ => ?_))
+  simp only [comask, bker, kout, kin, hk]
+  mask_cases ci i j
+
+/-! ### signed modularity (Rubinov & Sporns 2011), five normalisations -/
+
+/-- positive / negative parts of the weights, their totals -/
+noncomputable def Wpos (W : Fin n → Fin n → ℝ) (i j : Fin n) : ℝ := max (W i j) 0
+noncomputable def Wneg (W : Fin n → Fin n → ℝ) (i j : Fin n) : ℝ := max (-(W i j)) 0
+noncomputable def spos (W : Fin n → Fin n → ℝ) : ℝ := ∑ i, ∑ j, Wpos W i j
+noncomputable def sneg (W : Fin n → Fin n → ℝ) : ℝ := ∑ i, ∑ j, Wneg W i j
+
+/-- DEFINITION: d0 Σ_{same module} (w⁺_ij − k⁺_i k⁺_j / s⁺) − d1 Σ_{same module} (w⁻_ij − k⁻_i k⁻_j / s⁻), k± = row sums of W± -/
+noncomputable def Qsign (d0 d1 : ℝ) (W : Fin n → Fin n → ℝ) (ci : Fin n → ℝ) : ℝ :=
+  d0 * (∑ i, ∑ j, if ci i = ci j then (Wpos W i j - (∑ l, Wpos W i l) * (∑ l, Wpos W j l) / spos W) else 0)
+  - d1 * (∑ i, ∑ j, if ci i = ci j then (Wneg W i j - (∑ l, Wneg W i l) * (∑ l, Wneg W j l) / sneg W) else 0)
+
+lemma mul_pos_ind (x : ℝ) : x * (if x > 0 then (1:ℝ) else 0) = max x 0 := by
+  by_cases h : x > 0
+  · rw [if_pos h, mul_one, max_eq_left h.le]
+  · rw [if_neg h, mul_zero, max_eq_right (not_lt.mp h)]
+lemma neg_mul_neg_ind (x : ℝ) : (-x) * (if x < 0 then (1:ℝ) else 0) = max (-x) 0 := by
+  by_cases h : x < 0
+  · rw [if_pos h, mul_one, max_eq_left (by linarith)]
+  · rw [if_neg h, mul_zero, max_eq_right (by linarith [not_lt.mp h])]
+
+/- common script of the five theorems: unfold the extracted value and the definition, replace W·[W>0] by max, Kn0/Kn1 by their
+specification, the canonicalised labels by the labels, normalise the masks, decide the `if not s0` / `if not s1` branches -/
+
+--@ C02 : modularity_und_sign
+theorem modularity_und_sign_sta_is_Qsign (canon : (Fin n → ℝ) → Fin n → ℝ)
+    (hcanon : ∀ c x y, canon c x = canon c y ↔ c x = c y)
+    (W : Fin n → Fin n → ℝ) (ci Kn0 Kn1 : Fin n → ℝ)
+    (hK0 : ∀ i, Kn0 i = ∑ j, Wpos W i j) (hK1 : ∀ i, Kn1 i = ∑ j, Wneg W i j) (hs0 : spos W ≠ 0) (hs1 : sneg W ≠ 0) :
+    modularity_und_sign_sta_ret1 canon W ci Kn0 Kn1 = Qsign (1 / spos W) (1 / (spos W + sneg W)) W ci := by
+  simp only [modularity_und_sign_sta_ret1, Qsign, spos, sneg, Wpos, Wneg] at *
+  simp only [mul_pos_ind, neg_mul_neg_ind, add_left_inj, hcanon, hK0, hK1, mask_eq_r]
+  simp only [hs0, hs1, if_false, ite_self, zero_mul, sub_zero, zero_sub]
+
+--@ C02 : modularity_und_sign
+theorem modularity_und_sign_smp_is_Qsign (canon : (Fin n → ℝ) → Fin n → ℝ)
+    (hcanon : ∀ c x y, canon c x = canon c y ↔ c x = c y)
+    (W : Fin n → Fin n → ℝ) (ci Kn0 Kn1 : Fin n → ℝ)
+    (hK0 : ∀ i, Kn0 i = ∑ j, Wpos W i j) (hK1 : ∀ i, Kn1 i = ∑ j, Wneg W i j) (hs0 : spos W ≠ 0) (hs1 : sneg W ≠ 0) :
+    modularity_und_sign_smp_ret1 canon W ci Kn0 Kn1 = Qsign (1 / spos W) (1 / sneg W) W ci := by
+  simp only [modularity_und_sign_smp_ret1, Qsign, spos, sneg, Wpos, Wneg] at *
+  simp only [mul_pos_ind, neg_mul_neg_ind, add_left_inj, hcanon, hK0, hK1, mask_eq_r]
+  simp only [hs0, hs1, if_false, ite_self, zero_mul, sub_zero, zero_sub]
+
+--@ C02 : modularity_und_sign
+theorem modularity_und_sign_gja_is_Qsign (canon : (Fin n → ℝ) → Fin n → ℝ)
+    (hcanon : ∀ c x y, canon c x = canon c y ↔ c x = c y)
+    (W : Fin n → Fin n → ℝ) (ci Kn0 Kn1 : Fin n → ℝ)
+    (hK0 : ∀ i, Kn0 i = ∑ j, Wpos W i j) (hK1 : ∀ i, Kn1 i = ∑ j, Wneg W i j) (hs0 : spos W ≠ 0) (hs1 : sneg W ≠ 0) :
+    modularity_und_sign_gja_ret1 canon W ci Kn0 Kn1 = Qsign (1 / (spos W + sneg W)) (1 / (spos W + sneg W)) W ci := by
+  simp only [modularity_und_sign_gja_ret1, Qsign, spos, sneg, Wpos, Wneg] at *
+  simp only [mul_pos_ind, neg_mul_neg_ind, add_left_inj, hcanon, hK0, hK1, mask_eq_r]
+  simp only [hs0, hs1, if_false, ite_self, zero_mul, sub_zero, zero_sub]
+
+--@ C02 : modularity_und_sign
+theorem modularity_und_sign_pos_is_Qsign (canon : (Fin n → ℝ) → Fin n → ℝ)
+    (hcanon : ∀ c x y, canon c x = canon c y ↔ c x = c y)
+    (W : Fin n → Fin n → ℝ) (ci Kn0 Kn1 : Fin n → ℝ)
+    (hK0 : ∀ i, Kn0 i = ∑ j, Wpos W i j) (hK1 : ∀ i, Kn1 i = ∑ j, Wneg W i j) (hs0 : spos W ≠ 0) :
+    modularity_und_sign_pos_ret1 canon W ci Kn0 Kn1 = Qsign (1 / spos W) (0) W ci := by
+  simp only [modularity_und_sign_pos_ret1, Qsign, spos, sneg, Wpos, Wneg] at *
+  simp only [mul_pos_ind, neg_mul_neg_ind, add_left_inj, hcanon, hK0, hK1, mask_eq_r]
+  simp only [hs0, if_false, ite_self, zero_mul, sub_zero, zero_sub]
+
+--@ C02 : modularity_und_sign
+theorem modularity_und_sign_neg_is_Qsign (canon : (Fin n → ℝ) → Fin n → ℝ)
+    (hcanon : ∀ c x y, canon c x = canon c y ↔ c x = c y)
+    (W : Fin n → Fin n → ℝ) (ci Kn0 Kn1 : Fin n → ℝ)
+    (hK0 : ∀ i, Kn0 i = ∑ j, Wpos W i j) (hK1 : ∀ i, Kn1 i = ∑ j, Wneg W i j) (hs1 : sneg W ≠ 0) :
+    modularity_und_sign_neg_ret1 canon W ci Kn0 Kn1 = Qsign (0) (1 / sneg W) W ci := by
+  simp only [modularity_und_sign_neg_ret1, Qsign, spos, sneg, Wpos, Wneg] at *
+  simp only [mul_pos_ind, neg_mul_neg_ind, add_left_inj, hcanon, hK0, hK1, mask_eq_r]
+  simp only [hs1, if_false, ite_self, zero_mul, sub_zero, zero_sub]
+
+end C02
 end Extracted
